@@ -7,7 +7,13 @@
 //!  2. round trip: `decode(write(m)) == m` by the message types' `PartialEq`
 //!     (the property *is* this equivalence);
 //!  3. robustness: the six parsers return `Ok` or `Err` on byte-level and
-//!     tag-level mutants of valid documents and on random documents.
+//!     tag-level mutants of valid documents and on random documents;
+//!  4. sinks (`c11_sink.rs`): `Ok(())` from a writer implies that the sink
+//!     holds the complete document, for sinks that fail after any number of
+//!     octets and for sinks that take a few octets per call.
+//!
+//! `c11_long.rs` puts values with long plain runs around the characters that
+//! need an escape (255 .. 64 KiB + 1) into every field under oracles 1 and 2.
 //!
 //! Scope decisions (see DESIGN §4 C11 and the property text): only
 //! protocol-valid field values are held to oracle 1 and 2. Values the API
@@ -30,6 +36,10 @@ mod c11_gen;
 mod c11_mut;
 #[path = "c11_text.rs"]
 mod c11_text;
+#[path = "c11_long.rs"]
+mod c11_long;
+#[path = "c11_sink.rs"]
+mod c11_sink;
 
 use self::c11_gen as gen;
 use self::c11_mut as mutate;
@@ -117,15 +127,31 @@ impl AnyMsg {
     /// `unwrap` its result).
     fn write(&self) -> Result<Vec<u8>, String> {
         let mut v = Vec::new();
-        let r = match self {
-            AnyMsg::Prov(m) => m.write_xml(&mut v),
-            AnyMsg::Publ(m) => m.write_xml(&mut v),
-            AnyMsg::ChildReq(m) => m.write_xml(&mut v),
-            AnyMsg::ParentResp(m) => m.write_xml(&mut v),
-            AnyMsg::PubReq(m) => m.write_xml(&mut v),
-            AnyMsg::RepoResp(m) => m.write_xml(&mut v),
-        };
-        r.map(|_| v).map_err(|e| e.to_string())
+        self.write_into(&mut v).map(|_| v).map_err(|e| e.to_string())
+    }
+
+    /// `write_xml` into any sink.
+    fn write_into<W: std::io::Write>(&self, w: &mut W) -> Result<(), std::io::Error> {
+        match self {
+            AnyMsg::Prov(m) => m.write_xml(w),
+            AnyMsg::Publ(m) => m.write_xml(w),
+            AnyMsg::ChildReq(m) => m.write_xml(w),
+            AnyMsg::ParentResp(m) => m.write_xml(w),
+            AnyMsg::PubReq(m) => m.write_xml(w),
+            AnyMsg::RepoResp(m) => m.write_xml(w),
+        }
+    }
+
+    /// The writing entry points that bring their own sink.
+    fn to_xml_all(&self) -> Vec<(&'static str, Vec<u8>)> {
+        match self {
+            AnyMsg::Prov(m) => vec![("to_xml_bytes", m.to_xml_bytes().to_vec()), ("to_xml_string", m.to_xml_string().into_bytes())],
+            AnyMsg::Publ(m) => vec![("to_xml_bytes", m.to_xml_bytes().to_vec()), ("to_xml_string", m.to_xml_string().into_bytes())],
+            AnyMsg::ChildReq(m) => vec![("to_xml_vec", m.to_xml_vec()), ("to_xml_string", m.to_xml_string().into_bytes())],
+            AnyMsg::ParentResp(m) => vec![("to_xml_vec", m.to_xml_vec()), ("to_xml_string", m.to_xml_string().into_bytes())],
+            AnyMsg::PubReq(m) => vec![("to_xml_vec", m.to_xml_vec()), ("to_xml_string", m.to_xml_string().into_bytes())],
+            AnyMsg::RepoResp(m) => vec![("to_xml_vec", m.to_xml_vec()), ("to_xml_string", m.to_xml_string().into_bytes())],
+        }
     }
 }
 
@@ -188,6 +214,10 @@ struct Case {
     text_fields: Vec<TextField>,
     /// `Some(reason)`: built from values outside "protocol-valid"; observed only
     lenient: Option<&'static str>,
+    /// `Some(reason)`: a value is longer than the protocol's schema allows. The
+    /// document must still be well-formed and, if it is parsed back, equal; a
+    /// decoder that refuses it is within its rights (observed only)
+    open: Option<&'static str>,
     /// for a message that came out of a decoder: the document it was decoded
     /// from and how that was spelled (goes into the detail of a violation)
     source: Option<Value>,
@@ -195,7 +225,7 @@ struct Case {
 
 impl Case {
     fn new(variant: &'static str, msg: AnyMsg) -> Self {
-        Case { variant, msg, strings: Vec::new(), shape: String::new(), text_fields: Vec::new(), lenient: None, source: None }
+        Case { variant, msg, strings: Vec::new(), shape: String::new(), text_fields: Vec::new(), lenient: None, open: None, source: None }
     }
 
     fn signature(&self) -> String {
@@ -617,7 +647,7 @@ impl<'a> Gen<'a> {
                 }
             }
         };
-        Case { variant, msg: AnyMsg::Prov(msg), strings, shape, text_fields, lenient, source: None }
+        Case { variant, msg: AnyMsg::Prov(msg), strings, shape, text_fields, lenient, open: None, source: None }
     }
 
     //--- publication
@@ -1049,6 +1079,9 @@ fn check_case(ctx: &mut Ctx, case: &Case, wf: &mut WfBatch) -> Option<Vec<u8>> {
         (None, None) => ctx.obs("roundtrip_equal", 1),
         (None, Some(r)) => ctx.obs(&format!("lenient:{r}:roundtrip-equal"), 1),
         (Some((what, _)), Some(r)) => ctx.obs(&format!("lenient:{r}:{what}"), 1),
+        (Some((what, _)), None) if *what == "decode-error" && case.open.is_some() => {
+            ctx.obs(&format!("open:{}:decode-error", case.open.unwrap_or("")), 1)
+        }
         (Some((what, err)), None) => {
             // name the culprit if one of the attribute values has a text form
             // that does not parse back by itself
@@ -1413,6 +1446,9 @@ fn check_text_doc(ctx: &mut Ctx, td: &c11_text::TextDoc, wf: &mut WfBatch) {
         (None, None) => ctx.obs(if lexical { "lexical_roundtrip_equal" } else { "text_level_roundtrip_equal" }, 1),
         (None, Some(r)) => ctx.obs(&format!("lenient:{r}:roundtrip-equal"), 1),
         (Some((what, _)), Some(r)) => ctx.obs(&format!("lenient:{r}:{}", what.split(':').next().unwrap_or("failure")), 1),
+        (Some((what, _)), None) if what == "decode-error" && td.open.is_some() => {
+            ctx.obs(&format!("open:{}:decode-error", td.open.unwrap_or("")), 1)
+        }
         (Some((what, err)), None) => {
             let mut detail = describe(Some(&doc2));
             detail["error"] = json!(err);
@@ -1685,7 +1721,18 @@ pub fn run(ctx: &mut Ctx) {
     text_level(ctx, crypto.as_ref(), &mut wf);
     // the same, with every other spelling XML has for the same character data
     lexical_level(ctx, crypto.as_ref(), &mut wf);
+    // values with long plain runs around the characters that need an escape, in every field
+    if let Err(p) = crate::core::catch(|| c11_long::run(ctx, crypto.as_ref(), &mut wf)) {
+        // only constructors of field values and the library's writers / parsers run in there
+        let loc = crate::core::panic_location(&p);
+        ctx.violation(&format!("C11:panic:long-values:{loc}"), &format!("panic outside the guarded calls of the long-value pass: {p}"), json!({}));
+    }
     wf.flush(ctx);
+    // every writer against sinks that fail after k octets / take a few octets per call
+    if let Err(p) = crate::core::catch(|| c11_sink::run(ctx, crypto.as_ref())) {
+        let loc = crate::core::panic_location(&p);
+        ctx.violation(&format!("C11:panic:sinks:{loc}"), &format!("panic outside the guarded calls of the sink pass: {p}"), json!({}));
+    }
 
     ctx.obs("constructor_refused:uri_candidates", g.refused_uri);
     ctx.obs("constructor_refused:handles", g.refused_handle);
